@@ -1,27 +1,123 @@
 import Fabio.Basic
 /-!
-Model of the hand-written formatters on the access-log / request path (`logger/pattern.go`).
+Model of the hand-written formatters on the access-log / request path:
+`logger/pattern.go` (`atoi`, `hostport`, the field renderers, `lex`, `parse`, `pattern.write`),
+`proxy/http_headers.go` (`uint16base16`, `i32toa`) and `uuid/format.go` (`ToString`).
+
+Conventions (DESIGN.md §5): strings are `List Char`; every Go operation that can panic (index into a
+fixed-size buffer, slice expression) is a checked operation returning `Outcome.panic`; Go's truncating
+integer division is `Int.tdiv`/`Int.tmod`; two's-complement wrap-around is explicit (`wrap64`).
+Core Lean only: this module is linked into the model driver.
 -/
 namespace Fabio.Model.C20
 
+/-! ## checked buffer operations -/
+
+/-- `l[i]` with Go's bounds check. -/
+def getIdx {α} (l : List α) (i : Nat) : Outcome α :=
+  match l[i]? with
+  | some a => .ok a
+  | none => .panic "index out of range"
+
+/-- `l[i] = a` with Go's bounds check. -/
+def setIdx {α} (l : List α) (i : Nat) (a : α) : Outcome (List α) :=
+  if i < l.length then .ok (l.set i a) else .panic "index out of range"
+
+/-- The formatters fill a fixed array of `cap` bytes from its end towards its start (`d[p] = c; p--`).
+`acc` is the part written so far (`d[p+1:]`); one more write needs a free cell, otherwise `p` is `-1` and
+Go panics with "index out of range [-1]". -/
+def pushFront (cap : Nat) (c : Char) (acc : List Char) : Outcome (List Char) :=
+  if acc.length < cap then .ok (c :: acc) else .panic "index out of range [-1]"
+
+/-! ## numbers -/
+
 def minInt64 : Int := -(2^63)
 
-/-- The digit loop of `atoi`: `for i >= 0 { d[p] = '0'+i%10; i /= 10; p--; if i == 0 { break } }`,
-producing most-significant digit first. `fuel` bounds the iterations (an int64 has ≤ 19 digits). -/
-def digitsLoop : Nat → Nat → List Char → List Char
-  | 0, _, acc => acc
-  | fuel+1, i, acc =>
-    let acc' := Char.ofNat (48 + i % 10) :: acc
-    if i / 10 == 0 then acc' else digitsLoop fuel (i / 10) acc'
+/-- two's-complement reduction of a mathematical integer to int64 -/
+def wrap64 (x : Int) : Int := (x + 2^63) % 2^64 - 2^63
 
-/-- `atoi(b, i, pad)` for an int64 `i` (precondition `-2^63 ≤ i < 2^63`). Go's `-i` wraps for MinInt64,
-leaving `i` negative, so the digit loop is skipped altogether. -/
-def atoi (i : Int) (pad : Nat) : List Char :=
-  let neg := i < 0
-  let a : Int := if neg then (if i == minInt64 then minInt64 else -i) else i
-  let ds : List Char := if a < 0 then [] else digitsLoop 20 a.toNat []
-  let padded := List.replicate (pad - ds.length) '0' ++ ds
-  if neg then '-' :: padded else padded
+/-- `byte('0') + byte(i%10)` for `i ≥ 0` -/
+def digitByte (i : Nat) : Char := Char.ofNat (48 + i % 10)
+
+/-- The digit loop shared by `atoi` and `i32toa`:
+`for { d[p] = '0' + i%10; i /= 10; p--; if i == 0 { break } }` on a buffer of `cap` bytes.
+`fuel` bounds the iterations of the model; running out of it is reported as a panic value so that it can
+never be mistaken for a result (`digitsLoop_ok` shows it does not happen for `i < 10^fuel`). -/
+def digitsLoop (cap : Nat) : Nat → Nat → List Char → Outcome (List Char)
+  | 0, _, _ => .panic "model: digit loop out of fuel"
+  | fuel+1, i, acc =>
+    match pushFront cap (digitByte i) acc with
+    | .panic w => .panic w
+    | .ok acc' => if i / 10 = 0 then .ok acc' else digitsLoop cap fuel (i / 10) acc'
+
+/-- The padding loop of `atoi`: `for n-p-1 < pad { d[p] = '0'; p-- }`, `k` = number of iterations
+(`pad - (n-p-1)`, or 0). -/
+def padLoop (cap : Nat) : Nat → List Char → Outcome (List Char)
+  | 0, acc => .ok acc
+  | k+1, acc =>
+    match pushFront cap '0' acc with
+    | .panic w => .panic w
+    | .ok acc' => padLoop cap k acc'
+
+/-- `atoi(b, i, pad)` of `logger/pattern.go` for an int64 `i` (`-2^63 ≤ i < 2^63`) and `pad ≥ 0`; the result
+is what is appended to the buffer. `-i` wraps for MinInt64 and leaves `i` negative, so `for i >= 0` is
+skipped altogether. The scratch array has 128 bytes. -/
+def atoi (i : Int) (pad : Nat) : Outcome (List Char) :=
+  let neg := decide (i < 0)
+  let a : Int := if neg then wrap64 (-i) else i
+  (if a < 0 then Outcome.ok [] else digitsLoop 128 20 a.toNat []).bind fun ds =>
+  (padLoop 128 (pad - ds.length) ds).bind fun padded =>
+  if neg then pushFront 128 '-' padded else .ok padded
+
+/-- `i32toa(n)` of `proxy/http_headers.go` for an int32 `n`: 11-byte buffer, digits from the back, then
+the sign. `int64(n)` cannot overflow on negation. -/
+def i32toa (n : Int) : Outcome (List Char) :=
+  let signed := decide (n < 0)
+  let a : Int := if signed then -n else n
+  (digitsLoop 11 11 a.toNat []).bind fun ds =>
+  if signed then pushFront 11 '-' ds else .ok ds
+
+/-- `var digit16 = []byte("0123456789abcdef")` -/
+def digit16 : List Char := "0123456789abcdef".toList
+
+/-- `uint16base16(n)` for `n < 65536`. In Go `&` and `>>` have the same precedence and associate to the
+left: `n&0x00f0>>4` is `(n&0x00f0)>>4`. -/
+def uint16base16 (n : Nat) : Outcome (List Char) :=
+  (getIdx digit16 (n &&& 0x000f)).bind fun b5 =>
+  (getIdx digit16 ((n &&& 0x00f0) >>> 4)).bind fun b4 =>
+  (getIdx digit16 ((n &&& 0x0f00) >>> 8)).bind fun b3 =>
+  (getIdx digit16 ((n &&& 0xf000) >>> 12)).bind fun b2 =>
+  .ok ['0', 'x', b2, b3, b4, b5]
+
+/-! ## uuid.ToString -/
+
+/-- the position table of `ToString` -/
+def uuidIdx : List Nat := [0, 2, 4, 6, 9, 11, 14, 16, 19, 21, 24, 26, 28, 30, 32, 34]
+def uuidDashes : List Nat := [8, 13, 18, 23]
+/-- `halfbyte2hexchar` -/
+def halfbyte2hexchar : List Char :=
+  [48, 49, 50, 51, 52, 53, 54, 55, 56, 57, 97, 98, 99, 100, 101, 102].map Char.ofNat
+
+/-- `for i, n := range table { b[n] = hex[(u[i]>>4)&0x0f]; b[n+1] = hex[u[i]&0x0f] }` -/
+def uuidLoop (u : List UInt8) : List Nat → Nat → List Char → Outcome (List Char)
+  | [], _, b => .ok b
+  | n :: ns, i, b =>
+    (getIdx u i).bind fun ui =>
+    (getIdx halfbyte2hexchar ((ui.toNat >>> 4) &&& 0x0f)).bind fun hi =>
+    (setIdx b n hi).bind fun b1 =>
+    (getIdx halfbyte2hexchar (ui.toNat &&& 0x0f)).bind fun lo =>
+    (setIdx b1 (n+1) lo).bind fun b2 =>
+    uuidLoop u ns (i+1) b2
+
+def setAll (c : Char) : List Nat → List Char → Outcome (List Char)
+  | [], b => .ok b
+  | n :: ns, b => (setIdx b n c).bind (setAll c ns)
+
+/-- `uuid.ToString(u)`, `u` the 24 raw bytes -/
+def uuidToString (u : List UInt8) : Outcome (List Char) :=
+  (uuidLoop u uuidIdx 0 (List.replicate 36 (Char.ofNat 0))).bind (setAll '-' uuidDashes)
+
+/-! ## hostport -/
 
 /-- `hostport(s)`: `("","")` for the empty string, otherwise split at the last colon; an address without
 a colon is a host with an empty port (before the repair of D24 the Go code evaluated `s[:-1]` there and
@@ -31,5 +127,236 @@ def hostport (s : List Char) : Outcome (List Char × List Char) :=
   match lastIndexOf ':' s with
   | none => .ok (s, [])
   | some n => if n + 1 ≤ s.length then .ok (s.take n, s.drop (n+1)) else .panic "slice bounds out of range"
+
+/-! ## lex / parse -/
+
+inductive ItemType where
+  | text | field | header
+deriving DecidableEq, Repr, BEq
+
+inductive LexState where
+  | start | text | dollar | field | dot | header
+deriving DecidableEq, Repr
+
+def isIDChar (r : Char) : Bool :=
+  ('a' ≤ r && r ≤ 'z') || ('A' ≤ r && r ≤ 'Z') || ('0' ≤ r && r ≤ '9') || r == '_' || r == '-'
+
+def headerPrefix : List Char := "$header".toList
+
+/-- The `for i, r := range s` loop of `lex` with the `switch state` after it. `s` is the whole rune slice,
+`i` the index of the next rune, the last argument the runes from `i` on. The returned length is a Go `int`
+(`len(s) - 1` is not truncated at zero). -/
+def lexLoop (s : List Char) : LexState → Nat → List Char → ItemType × Int
+  | st, _, [] =>
+    match st with
+    | .dot => (.field, (s.length : Int) - 1)
+    | .field => (.field, s.length)
+    | .header => (.header, s.length)
+    | _ => (.text, s.length)
+  | st, i, r :: rs =>
+    match st with
+    | .start => if r = '$' then lexLoop s .dollar (i+1) rs else lexLoop s .text (i+1) rs
+    | .text => if r = '$' then (.text, i) else lexLoop s .text (i+1) rs
+    | .dollar => if isIDChar r then lexLoop s .field (i+1) rs else lexLoop s .text (i+1) rs
+    | .field =>
+      if r = '.' then
+        (if s.take i = headerPrefix then lexLoop s .dot (i+1) rs else (.field, i))
+      else if isIDChar r then lexLoop s .field (i+1) rs
+      else (.field, i)
+    | .dot => if isIDChar r then lexLoop s .header (i+1) rs else (.field, i)
+    | .header => if isIDChar r then lexLoop s .header (i+1) rs else (.header, i)
+
+/-- `lex(s)`: type and length (in runes) of the first item of `s`. -/
+def lex (s : List Char) : ItemType × Int := lexLoop s .start 0 s
+
+/-- one element of a parsed pattern -/
+inductive Item where
+  | text (s : List Char)
+  | header (name : List Char)
+  | field (name : List Char)
+deriving DecidableEq, Repr, BEq
+
+/-- Result of `parse`: the pattern or `invalid field "<name>"`. -/
+abbrev ParseResult := Except (List Char) (List Item)
+
+/-- The `for { if len(s) == 0 { break }; typ, n := lex(s); val := string(s[:n]); s = s[n:]; … }` loop of
+`parse`. The Go loop has no bound of its own: it terminates because `lex` consumes at least one rune
+(`lex_progress`). The model runs it with `fuel`; running out of fuel stands for a loop that would not
+terminate and is reported as a panic value (`parse_total`: it does not happen with fuel `len + 1`). -/
+def parseLoop (known : List Char → Bool) : Nat → List Char → List Item → Outcome ParseResult
+  | 0, _, _ => .panic "model: parse makes no progress"
+  | fuel+1, s, acc =>
+    if s.isEmpty then .ok (.ok acc.reverse) else
+    let (typ, n) := lex s
+    if n < 0 ∨ (s.length : Int) < n then .panic "slice bounds out of range" else
+    let val := s.take n.toNat
+    let s' := s.drop n.toNat
+    match typ with
+    | .text => parseLoop known fuel s' (.text val :: acc)
+    | .header =>
+      -- val[len("$header."):]
+      if val.length < 8 then .panic "slice bounds out of range"
+      else parseLoop known fuel s' (.header (val.drop 8) :: acc)
+    | .field =>
+      if known val then parseLoop known fuel s' (.field val :: acc) else .ok (.error val)
+
+def parseWith (known : List Char → Bool) (format : List Char) : Outcome ParseResult :=
+  parseLoop known (format.length + 1) format []
+
+/-! ## the log event and the field renderers -/
+
+/-- What the renderers read from a `*url.URL` (the strings are what `net/url` returns; `net/url` itself is
+not modelled). -/
+structure URLView where
+  scheme : List Char
+  rawQuery : List Char
+  requestURI : List Char   -- u.RequestURI()
+  str : List Char          -- u.String()
+deriving Repr
+
+/-- An abstract `logger.Event`. `Response` is never nil at the only call site (`proxy/http_proxy.go`
+builds `&http.Response{…}` in place; pinned by a regenerated fact). The calendar is not modelled: the time
+fields are the year … nanosecond **of `End` in UTC** and `End.UnixNano()`, `durNs` is
+`End.Sub(Start).Nanoseconds()`. -/
+structure Event where
+  hasRequest : Bool := true
+  remoteAddr : List Char := []
+  method : List Char := []
+  requestURI : List Char := []
+  proto : List Char := []
+  host : List Char := []
+  /-- `Request.Header`: `none` for a nil map, otherwise key ↦ values (keys unique, as stored in the map) -/
+  header : Option (List (List Char × List (List Char))) := some []
+  requestURL : Option URLView := none
+  upstreamURL : Option URLView := none
+  upstreamAddr : List Char := []
+  upstreamService : List Char := []
+  status : Int := 0
+  contentLength : Int := 0
+  durNs : Int := 0
+  unixNano : Int := 0
+  year : Int := 1970
+  month : Int := 1
+  day : Int := 1
+  hour : Int := 0
+  minute : Int := 0
+  second : Int := 0
+  nanos : Int := 0
+deriving Repr
+
+def shortMonthNames : List (List Char) :=
+  ["---", "Jan", "Feb", "Mar", "Apr", "May", "Jun", "Jul", "Aug", "Sep", "Oct", "Nov", "Dec"].map String.toList
+
+def upperASCII (c : Char) : Char := if 'a' ≤ c ∧ c ≤ 'z' then Char.ofNat (c.toNat - 32) else c
+
+/-- `textproto.CanonicalMIMEHeaderKey` on names made of `[a-zA-Z0-9_-]` (all of them valid token bytes):
+first letter and every letter after a `-` upper case, the rest lower case. -/
+def canonicalKey : Bool → List Char → List Char
+  | _, [] => []
+  | upper, c :: cs =>
+    let c' := if upper then upperASCII c else lowerChar c
+    c' :: canonicalKey (c' == '-') cs
+
+/-- `e.Request.Header.Get(name)` -/
+def headerGet (h : List (List Char × List (List Char))) (name : List Char) : List Char :=
+  match h.lookup (canonicalKey true name) with
+  | some (v :: _) => v
+  | _ => []
+
+def seqOut : List (Outcome (List Char)) → Outcome (List Char)
+  | [] => .ok []
+  | x :: xs => x.bind fun a => (seqOut xs).bind fun b => .ok (a ++ b)
+
+def lit (s : String) : Outcome (List Char) := .ok s.toList
+
+/-- `YYYY-MM-DDTHH:MM:SS` -/
+def rfc3339Head (e : Event) : List (Outcome (List Char)) :=
+  [atoi e.year 4, lit "-", atoi e.month 2, lit "-", atoi e.day 2, lit "T",
+   atoi e.hour 2, lit ":", atoi e.minute 2, lit ":", atoi e.second 2]
+
+def monthName (m : Int) : Outcome (List Char) :=
+  if m < 0 then .panic "index out of range" else getIdx shortMonthNames m.toNat
+
+def secondNs : Int := 1000000000
+
+def responseTime (e : Event) (unit : Int) (pad : Nat) : Outcome (List Char) :=
+  let d := e.durNs
+  seqOut [atoi (d.tdiv secondNs) 0, lit ".", atoi ((d.tmod secondNs).tdiv unit) pad]
+
+def ifReq (e : Event) (s : List Char) : Outcome (List Char) := .ok (if e.hasRequest then s else [])
+
+/-- The `fields` map of `logger/pattern.go`, in the order of the source. -/
+def fieldTable : List (String × (Event → Outcome (List Char))) := [
+  ("$remote_addr", fun e => ifReq e e.remoteAddr),
+  ("$remote_host", fun e => if e.hasRequest then (hostport e.remoteAddr).map (·.1) else .ok []),
+  ("$remote_port", fun e => if e.hasRequest then (hostport e.remoteAddr).map (·.2) else .ok []),
+  ("$request", fun e => ifReq e (e.method ++ [' '] ++ e.requestURI ++ [' '] ++ e.proto)),
+  ("$request_args", fun e => .ok ((e.requestURL.map (·.rawQuery)).getD [])),
+  ("$request_host", fun e => ifReq e e.host),
+  ("$request_method", fun e => ifReq e e.method),
+  ("$request_scheme", fun e => .ok ((e.requestURL.map (·.scheme)).getD [])),
+  ("$request_uri", fun e => ifReq e e.requestURI),
+  ("$request_url", fun e => .ok ((e.requestURL.map (·.str)).getD [])),
+  ("$request_proto", fun e => ifReq e e.proto),
+  ("$response_body_size", fun e => atoi e.contentLength 0),
+  ("$response_status", fun e => atoi e.status 0),
+  ("$response_time_ms", fun e => responseTime e 1000000 3),
+  ("$response_time_us", fun e => responseTime e 1000 6),
+  ("$response_time_ns", fun e => responseTime e 1 9),
+  ("$time_unix_ms", fun e => atoi (e.unixNano.tdiv 1000000) 0),
+  ("$time_unix_us", fun e => atoi (e.unixNano.tdiv 1000) 0),
+  ("$time_unix_ns", fun e => atoi e.unixNano 0),
+  ("$time_common", fun e => seqOut [atoi e.day 2, lit "/", monthName e.month, lit "/", atoi e.year 4, lit ":",
+      atoi e.hour 2, lit ":", atoi e.minute 2, lit ":", atoi e.second 2, lit " +0000"]),
+  ("$time_rfc3339", fun e => seqOut (rfc3339Head e ++ [lit "Z"])),
+  ("$time_rfc3339_ms", fun e => seqOut (rfc3339Head e ++ [lit ".", atoi (e.nanos.tdiv 1000000) 3, lit "Z"])),
+  ("$time_rfc3339_us", fun e => seqOut (rfc3339Head e ++ [lit ".", atoi (e.nanos.tdiv 1000) 6, lit "Z"])),
+  ("$time_rfc3339_ns", fun e => seqOut (rfc3339Head e ++ [lit ".", atoi e.nanos 9, lit "Z"])),
+  ("$upstream_addr", fun e => .ok e.upstreamAddr),
+  ("$upstream_host", fun e => (hostport e.upstreamAddr).map (·.1)),
+  ("$upstream_port", fun e => (hostport e.upstreamAddr).map (·.2)),
+  ("$upstream_request_scheme", fun e => .ok ((e.upstreamURL.map (·.scheme)).getD [])),
+  ("$upstream_request_uri", fun e => .ok ((e.upstreamURL.map (·.requestURI)).getD [])),
+  ("$upstream_request_url", fun e => .ok ((e.upstreamURL.map (·.str)).getD [])),
+  ("$upstream_service", fun e => .ok e.upstreamService)]
+
+def fieldNames : List String := fieldTable.map (·.1)
+
+def knownField (name : List Char) : Bool := fieldNames.contains (String.ofList name)
+
+/-- `parse(format, fields)` with the package's own table -/
+def parse (format : List Char) : Outcome ParseResult := parseWith knownField format
+
+def renderItem (e : Event) : Item → Outcome (List Char)
+  | .text s => .ok s
+  | .header name =>
+    match e.hasRequest, e.header with
+    | true, some h => .ok (headerGet h name)
+    | _, _ => .ok []
+  | .field name =>
+    match fieldTable.lookup (String.ofList name) with
+    | some f => f e
+    | none => .panic "nil field function"   -- unreachable after `parse` (unknown names are rejected)
+
+/-- what the field functions append to the (reset) buffer, in order -/
+def render (p : List Item) (e : Event) : Outcome (List Char) := seqOut (p.map (renderItem e))
+
+/-- `pattern.write` on an empty buffer: the rendering followed by one `'\n'` — unless the rendering is
+empty, in which case nothing at all is written (`if b.Len() == 0 { return }`). -/
+def write (p : List Item) (e : Event) : Outcome (List Char) :=
+  (render p e).bind fun b => if b.isEmpty then .ok [] else .ok (b ++ ['\n'])
+
+inductive LogResult where
+  | newError (msg : List Char)     -- `logger.New` returned an error
+  | written (out : List Char)      -- bytes handed to the writer by `Log`
+deriving Repr, DecidableEq
+
+/-- `logger.New(w, format)` followed by `Log(e)` on the resulting logger. -/
+def newAndLog (format : List Char) (e : Event) : Outcome LogResult :=
+  (parse format).bind fun r =>
+  match r with
+  | .error name => .ok (.newError ("invalid field \"".toList ++ name ++ ['"']))
+  | .ok [] => .ok (.newError "empty log format".toList)
+  | .ok p => (write p e).map .written
 
 end Fabio.Model.C20
